@@ -391,6 +391,10 @@ CORPUS_PW_REFINED = [
 # the same profile listed with ascending enthalpy (as the repository's own test data files are): the refinement flips the
 # curve and calls np.interp with descending abscissas, its constraint is meaningless (open finding)
 CORPUS_PW_REFINED.append((CORPUS_PW_REFINED[0][0][::-1], True, 0.0078125))
+# refined cases on which the unchanged code meets every clause: a failure here is a regression, whatever the listed findings say
+# about the refinement in general (hot quadratic profile, 101 points: worst deviation 0.033 for eps 0.05)
+PINNED_REFINED_OK = [([(1000.0 - 10.0 * i, 100.0 + 200.0 * ((1000.0 - 10.0 * i) / 1000.0) ** 2) for i in range(101)], True, 0.05)]
+CORPUS_PW_REFINED += PINNED_REFINED_OK
 PW_KIND = {11: "refine-ends-moved", 12: "slsqp-refinement-unchecked", 13: "slsqp-refinement-unchecked", 14: "slsqp-refinement-unchecked"}
 PW_WHAT = {11: "refined profile does not keep both end points",
            12: "after the SLSQP refinement (RDP keeps > 10 points) the break points are not in the original order of enthalpy "
@@ -462,6 +466,8 @@ def pw_suite(ctx):
             kind, what = RDP_KIND.get(code, ("rdp-property", "property predicate false"))
         else:
             kind, what = "pw-model-mismatch", f"get_piecewise_data_points differs from the RDP model at index {v[1]} although RDP keeps <= 10 points"
+        if (pts, hot, eps) in PINNED_REFINED_OK:
+            kind, what = "refined-pinned-regression", "a refined profile that met every clause on the unchanged code no longer does: " + what
         seen_kinds[kind] = seen_kinds.get(kind, 0) + 1
         if v[0] == 2:
             mism += 1
